@@ -72,7 +72,13 @@ def _is_simple(vertices):
     extent = np.max(np.abs(vertices))
     if extent > 0:
         vertices = vertices / extent
-    return len(poly_point_isect.isect_polygon(vertices)) == 0
+    try:
+        return len(poly_point_isect.isect_polygon(vertices)) == 0
+    except AssertionError:
+        # The sweep's internal consistency checks fail on some degenerate
+        # configurations (edges that touch or overlap along a line). Such a cycle is
+        # not a simple polygon.
+        return False
 
 
 class Polygon(Shape2D):
